@@ -148,7 +148,10 @@ func (this *ByteTransformSequence) Inverse(src, dst []byte) (uint, uint, error) 
 	length := blockSize
 	in, out := src, dst
 	var err error
-	swaps := 0
+
+	// An intermediate result can be bigger than the final block: each stage
+	// may have expanded its input (up to its MaxEncodedLen)
+	requiredSize := max(len(dst), this.MaxEncodedLen(len(dst)))
 
 	// Process transforms sequentially in reverse order
 	for i := this.Len() - 1; i >= 0; i-- {
@@ -156,11 +159,12 @@ func (this *ByteTransformSequence) Inverse(src, dst []byte) (uint, uint, error) 
 			continue
 		}
 
-		if len(out) < len(dst) {
-			if cap(out) >= len(dst) {
-				out = out[:len(dst)]
+		if len(out) < requiredSize {
+			// Never write past the length of the destination provided by the caller
+			if &out[0] != &dst[0] && cap(out) >= requiredSize {
+				out = out[:requiredSize]
 			} else {
-				out = make([]byte, len(dst))
+				out = make([]byte, requiredSize)
 			}
 		}
 
@@ -171,10 +175,10 @@ func (this *ByteTransformSequence) Inverse(src, dst []byte) (uint, uint, error) 
 		}
 
 		in, out = out, in
-		swaps++
 	}
 
-	if err == nil && swaps&1 == 0 {
+	if err == nil && &in[0] != &dst[0] {
+		// The result is not in the destination buffer
 		if len(dst) < int(length) {
 			err = errors.New("Inverse transform sequence failed")
 		} else {
